@@ -20,9 +20,10 @@ VARIABLES p,            \* the previous tickEnd record ("none" before the first 
           prePauseRun, pauseDirty,
           writerInPause,  \* a command that writes the output has executed since the current pause began
           restartWanted,
+          unpauseAsked, \* an Unpause request was accepted since the last tick ended
           stopAt,       \* tick at which a user Stop was accepted (0 = none pending; ticks are counted from 1 here)
           tid, l, viols, done
-tvars == <<p, maxRun, everStarted, prePause, prePauseRun, pauseDirty, writerInPause, restartWanted, stopAt, tid, l, viols, done>>
+tvars == <<p, maxRun, everStarted, prePause, prePauseRun, pauseDirty, writerInPause, restartWanted, stopAt, unpauseAsked, tid, l, viols, done>>
 T == Traces[tid].ev
 
 Display(e) == IF ~e.started THEN "Stopped" ELSE IF e.paused THEN "Paused" ELSE IF e.holding THEN "Holding" ELSE "Running"
@@ -76,7 +77,8 @@ TickClauses(e) ==
        \* a Stop or Restart that ends a paused run takes the outputs from safe to safe: cancelling the pending Pause must not
        \* put the values from before the pause back on the hardware for the tick in which the run is being ended
        <<"C08.safe-when-stop-ends-pause",
-            p.t >= 0 /\ p.paused /\ p.started /\ e.stopping /\ SameRun(e) /\ ~(e.writerExec \/ writerInPause) => e.hw1 = SafeToken>>,
+            p.t >= 0 /\ p.paused /\ p.started /\ e.stopping /\ SameRun(e) /\ ~(e.writerExec \/ writerInPause) /\ ~unpauseAsked
+                => e.hw1 = SafeToken>>,
        <<"C08.no-unsafe-write-when-stopped",
             p.t >= 0 /\ ~p.started /\ ~e.started => \A i \in DOMAIN e.w1 : e.w1[i] = SafeToken>>,
        \* C09
@@ -85,13 +87,16 @@ TickClauses(e) ==
                 => (prePauseRun = e.runId /\ e.out1 = prePause)>>,
        \* C13
        <<"C13.error-pauses", e.failedNodes # <<>> => e.paused /\ e.status = "Error">>,
+       \* the converse: the run is not put into the error state by the engine's own bookkeeping. With hardware and UOD callbacks
+       \* that stay in their domains, an error state begins only in a tick in which an instruction (method, injected or user) failed
+       <<"C13.error-state-has-a-failed-instruction", p.t >= 0 /\ ~p.err /\ e.err => e.failedAny>>,
        <<"C13.failed-line-reported" \o (IF e.edited THEN "@after-live-edit" ELSE ""), e.failedNodes # <<>> /\ e.started => SetOfSeq(e.failedNodes) \subseteq SetOfSeq(e.mfailed)>>,
        <<"C13.stop-completes", stopAt # 0 /\ e.t + 1 >= stopAt + 3 => ~e.started>> >>
 
 NoPrev == [t |-> -1]
 TInit == /\ p = NoPrev /\ maxRun = 0 /\ everStarted = FALSE /\ prePause = "" /\ prePauseRun = 0 /\ pauseDirty = FALSE
          /\ writerInPause = FALSE
-         /\ restartWanted = FALSE /\ stopAt = 0
+         /\ restartWanted = FALSE /\ stopAt = 0 /\ unpauseAsked = FALSE
          /\ tid \in 1..Len(Traces) /\ l = 1 /\ viols = {} /\ done = FALSE
 
 Step ==
@@ -101,6 +106,7 @@ Step ==
           /\ viols' = AddViols(viols, Failing(ReqClauses(e)), l)
           /\ restartWanted' = (restartWanted \/ (e.name = "Restart" /\ e.res = "ok"))
           /\ stopAt' = IF e.name = "Stop" /\ e.res = "ok" /\ stopAt = 0 THEN e.t + 2 ELSE stopAt
+          /\ unpauseAsked' = (unpauseAsked \/ (e.name = "Unpause" /\ e.res = "ok"))
           /\ UNCHANGED <<p, maxRun, everStarted, prePause, prePauseRun, pauseDirty, writerInPause>>
        ELSE
           /\ viols' = AddViols(viols, Failing(TickClauses(e)), l)
@@ -116,9 +122,10 @@ Step ==
                               ELSE IF restartWanted /\ e.state = "Running" /\ p.t >= 0 /\ p.state \in {"Stopped", "Restarting"} THEN FALSE
                               ELSE restartWanted
           /\ stopAt' = IF ~e.started THEN 0 ELSE stopAt
+          /\ unpauseAsked' = FALSE
     /\ l' = l + 1 /\ UNCHANGED <<tid, done>>
 
 Finish == /\ l = Len(T) + 1 /\ ~done /\ done' = TRUE /\ Report(Traces[tid].id, l - 1, viols)
-          /\ UNCHANGED <<p, maxRun, everStarted, prePause, prePauseRun, pauseDirty, writerInPause, restartWanted, stopAt, tid, l, viols>>
+          /\ UNCHANGED <<p, maxRun, everStarted, prePause, prePauseRun, pauseDirty, writerInPause, restartWanted, stopAt, unpauseAsked, tid, l, viols>>
 TSpec == TInit /\ [][Step \/ Finish]_tvars
 =============================================================================
